@@ -468,6 +468,103 @@ func checkC10(w *World) {
 			}
 		})
 	})
+	// ... nor are two lists carved out of one allocation in a way that lets one grow into the other (`lists[:0]` and
+	// `lists[4:4]` of one make: the first list's spare capacity is the second list's storage)
+	type carve struct {
+		st   *ssa.Store
+		sl   *ssa.Slice
+		role string
+	}
+	w.forAllFuncs("store", func(fn *ssa.Function) {
+		byRoot := map[ssa.Value][]carve{}
+		var roots []ssa.Value
+		allInstrs(fn, func(in ssa.Instruction) {
+			st, ok := in.(*ssa.Store)
+			if !ok {
+				return
+			}
+			fa, ok := st.Addr.(*ssa.FieldAddr)
+			if !ok {
+				return
+			}
+			if pt, ok := fa.X.Type().Underlying().(*types.Pointer); !ok || !types.Identical(pt.Elem(), sf.T) {
+				return
+			}
+			r := sf.roleOf(fa.Field)
+			if r != "namespaces" && r != "attributes" && r != "children" {
+				return
+			}
+			sl, ok := stripConv(st.Val).(*ssa.Slice)
+			if !ok {
+				return
+			}
+			root := ssa.Value(sl)
+			for d := 0; d < 6; d++ {
+				s2, isSl := stripConv(root).(*ssa.Slice)
+				if !isSl {
+					break
+				}
+				root = s2.X
+			}
+			root = stripConv(root)
+			switch root.(type) {
+			case *ssa.Alloc, *ssa.MakeSlice:
+			default:
+				return
+			}
+			if sl.X != root {
+				if inner, isSl := stripConv(sl.X).(*ssa.Slice); !isSl || stripConv(inner.X) != root || inner.Low != nil || inner.Max != nil {
+					return // a slice of a slice with bounds of its own: not read here
+				}
+			}
+			if _, seen := byRoot[root]; !seen {
+				roots = append(roots, root)
+			}
+			byRoot[root] = append(byRoot[root], carve{st, sl, r})
+		})
+		for _, root := range roots {
+			cs := byRoot[root]
+			if len(cs) < 2 {
+				continue
+			}
+			// disjoint when every piece has a constant [low, max) and the intervals do not overlap
+			type iv struct{ lo, hi int64 }
+			var ivs []iv
+			okAll := true
+			for _, c := range cs {
+				lo := int64(0)
+				if c.sl.Low != nil {
+					k, isK := constInt(c.sl.Low)
+					if !isK {
+						okAll = false
+					}
+					lo = k
+				}
+				if c.sl.Max == nil {
+					okAll = false
+					continue
+				}
+				hi, isK := constInt(c.sl.Max)
+				if !isK {
+					okAll = false
+				}
+				ivs = append(ivs, iv{lo, hi})
+			}
+			if okAll {
+				for i := range ivs {
+					for j := i + 1; j < len(ivs); j++ {
+						if ivs[i].lo < ivs[j].hi && ivs[j].lo < ivs[i].hi {
+							okAll = false
+						}
+					}
+				}
+			}
+			if !okAll {
+				n3++
+				w.check(P, "R10.3", fmt.Sprintf("the %s and %s lists of one cursor share one allocation in %s", cs[0].role, cs[1].role, fn.Name()), cs[0].st.Pos(), false, "two lists are slices of one backing array and the capacity of one reaches into the storage of the other (no three-index slice with disjoint constant ranges): appending to the first list overwrites the entries of the next one")
+			}
+		}
+	})
 	if n3 == 0 {
 		w.check(P, "R10.3", "package store: no list sharing", 0, true, "no copy/append takes its elements from an existing cursor list")
 	}
